@@ -51,6 +51,92 @@ class StubGenerator:
     def random(self, size=None):
         return self.uniform(0.0, 1.0, size)
 
+    # ---- integer draws: decided by forking (every outcome is explored) or
+    # ---- scripted by the harness (probability audit)
+    def _one_index(self, n, exclude=()):
+        ctx = _ctx()
+        self.calls += 1
+        # a stream is a deterministic function of (seed, call number): a second
+        # generator created from the same seed replays the same outcomes
+        memo = ctx.__dict__.setdefault('rng_outcomes', {})
+        key = (self.stream, self.calls, n, tuple(exclude))
+        if key in memo:
+            return memo[key]
+        v = self._one_index_fresh(n, exclude)
+        memo[key] = v
+        return v
+
+    def _one_index_fresh(self, n, exclude=()):
+        ctx = _ctx()
+        x = ctx.fresh_int(f'rng_{self.stream}_{self.calls}_idx')
+        ctx.assume(x >= 0)
+        ctx.assume(x < n)
+        for e in exclude:
+            ctx.assume(x != e)
+        return ctx.concretize_int(x)
+
+    def choice(self, a, size=None, replace=True, p=None, **kw):
+        ctx = _ctx()
+        if kw:
+            raise Unmodelled(f'choice keywords {sorted(kw)}')
+        if isinstance(a, (int, _np.integer)):
+            n = int(a)
+            pool = None
+        else:
+            pool = _np.asarray(a)
+            n = len(pool)
+        ctx.rng_audit.append(('draw', self.stream, self.calls, 'choice'))
+        pc = None
+        if p is not None:
+            pc = _np.array(p, dtype=object).copy()
+            if len(pc) != n:
+                raise ValueError("'a' and 'p' must have same size")
+        script = getattr(self, 'script', None)
+        if size is None:
+            k, shape = 1, None
+        else:
+            shape = (int(size),) if isinstance(size, (int, _np.integer)) else tuple(int(s) for s in size)
+            k = int(_np.prod(shape))
+        if not replace and k > n:
+            raise ValueError('Cannot take a larger sample than population when replace is False')
+        out = []
+        for _ in range(k):
+            if script:
+                v = script.pop(0)
+            else:
+                v = self._one_index(n, exclude=out if not replace else ())
+            out.append(int(v))
+        self.log.append(('choice', n, size, pc, list(out)))
+        vals = [pool[i] for i in out] if pool is not None else out
+        if shape is None:
+            return vals[0]
+        return _np.array(vals).reshape(shape)
+
+    def integers(self, low, high=None, size=None, **kw):
+        if high is None:
+            low, high = 0, low
+        r = self.choice(int(high) - int(low), size)
+        return r + int(low)
+
+    def shuffle(self, x, axis=0):
+        """In-place permutation chosen by the harness (`perm`: 'identity',
+        'reverse', 'rotate'); claims stated on the result are permutation
+        invariant."""
+        ctx = _ctx()
+        ctx.rng_audit.append(('draw', self.stream, self.calls, 'shuffle'))
+        self.log.append(('shuffle', len(x)))
+        mode = getattr(self, 'perm', 'reverse')
+        n = len(x)
+        if mode == 'identity' or n < 2:
+            return
+        idx = list(range(n))[::-1] if mode == 'reverse' else list(range(1, n)) + [0]
+        x[...] = _np.array(x)[idx]
+
+    def permutation(self, x):
+        a = _np.arange(x) if isinstance(x, (int, _np.integer)) else _np.array(x)
+        self.shuffle(a)
+        return a
+
 
 _STREAMS = {}
 
@@ -65,9 +151,13 @@ def default_rng(seed=None):
     return StubGenerator(f's{int(seed)}')
 
 
+class GlobalRNG(Unmodelled):
+    """The code under test touched the global NumPy generator."""
+
+
 def global_random(name):
     def f(*a, **k):
         ctx = _ctx()
         ctx.rng_audit.append(('global', name))
-        raise Unmodelled(f'global np.random.{name}')
+        raise GlobalRNG(f'global np.random.{name}')
     return f
